@@ -17,8 +17,9 @@ RMNodesTrace.tla:
              node reachability changed; `fromreg` = it did not call
              `_init_from_scratch` again
 
-Nothing of the RM is re-implemented here: the rig only writes the files, stubs
-the ssh reachability probe of backup nodes ("all reachable") and the `qstat`
+Nothing of the RM is re-implemented here: the rig only writes the files, replaces
+rc.process.Process (the ssh reachability probe made when the pilot has backup
+nodes: per node ok / refused / never answers, as the input says) and the `qstat`
 call, and projects RMInfo into JSON.
 '''
 
@@ -49,7 +50,8 @@ CLASSES = {'FORK': Fork, 'SLURM': Slurm, 'PBSPRO_VNODE': PBSPro, 'PBSPRO_FILE': 
            'LSF': LSF, 'COBALT_FILE': Cobalt, 'COBALT_PART': Cobalt, 'TORQUE': Torque, 'CCM': CCM}
 
 FIELDS = ['rm', 'hosts', 'shape', 'pseudo', 'pslots', 'uneven', 'style', 'cores', 'smt', 'known',
-          'gpn', 'gpusrc', 'bc', 'bg', 'requested', 'slack', 'backup', 'agents', 'service']
+          'gpn', 'gpusrc', 'bc', 'bg', 'requested', 'slack', 'backup', 'agents', 'service',
+          'refused', 'hangs']
 
 # Slurm environment variables that announce the GPUs of a node
 GPU_ENV = {'GPUS_ON_NODE': 'SLURM_GPUS_ON_NODE', 'JOB_GPUS': 'SLURM_JOB_GPUS',
@@ -70,6 +72,8 @@ def case_from_tuple(t):
     c['hosts'] = list(c['hosts'])
     c['bc']    = sorted(c['bc'])
     c['bg']    = sorted(c['bg'])
+    c['refused'] = sorted(c.get('refused', []))
+    c['hangs']   = sorted(c.get('hangs', []))
     return c
 
 
@@ -137,21 +141,35 @@ def usable_g(c):
 
 # ------------------------------------------------------------------------------
 class FakeProcess(object):
-    '''stands for the ssh probe of _filter_nodes: every node is reachable'''
-    probed = 0
-    down   = set()     # names of nodes which do not answer (second inspection only)
+    '''stands for rc.process.Process in _filter_nodes (the ssh probe): the k-th
+       probe started in one inspection answers as `plan[k]` says -
+         ok       exit code 0
+         refused  exit code 255
+         hangs    no answer within the timeout; cancel() ends the process, which
+                  (like rc.process.Process) never gets an exit code then'''
+    plan    = []       # outcome per node position of the current inspection
+    started = 0
+    down    = set()    # names which refuse (second inspection of a pilot only)
 
     def __init__(self, cmd):
         self.cmd, self.retcode, self.stdout, self.stderr = cmd, None, '', ''
+        self.cancelled, self.how = False, 'ok'
 
     def start(self):
-        FakeProcess.probed += 1
+        k = FakeProcess.started
+        FakeProcess.started += 1
+        if k < len(FakeProcess.plan):
+            self.how = FakeProcess.plan[k]
+        if any(d in self.cmd.split() for d in FakeProcess.down):
+            self.how = 'refused'
 
     def wait(self, timeout=None):
-        self.retcode = 1 if any(d in self.cmd.split() for d in FakeProcess.down) else 0
+        if   self.how == 'ok'     : self.retcode, self.stdout = 0, 'hostname\n'
+        elif self.how == 'refused': self.retcode, self.stderr = 255, 'ssh: connect to host: Connection refused'
+        # hangs: nothing happens, with or without cancel()
 
     def cancel(self):
-        pass
+        self.cancelled = True
 
 
 class FakeRegistry(object):
@@ -360,6 +378,10 @@ class RMNodesRig(object):
             return res
 
         def filter_nodes(rm_info):
+            n = len(rm_info.node_list)
+            FakeProcess.started = 0
+            FakeProcess.plan    = ['refused' if k + 1 in c['refused'] else
+                                   'hangs'   if k + 1 in c['hangs']   else 'ok' for k in range(n)]
             real_flt(rm_info)
             events.append({'ev': 'Filtered', 'P': partition(rm_info)})
 
@@ -394,6 +416,7 @@ class RMNodesRig(object):
                             os.environ.pop(k, None)
                 else:
                     FakeProcess.down = {host_name(c['hosts'][0], c['rm'])}
+                FakeProcess.plan, FakeProcess.started = [], 0
                 cls   = type(rm)
                 rm2   = cls.__new__(cls)
                 calls = []
